@@ -44,7 +44,26 @@ Theorem C16_liveness_notify_requests_partial : forall c st now peer ids atime in
   exists l, In (peer, l) (snd (step true c st now (ENotify peer ids atime interested false scan))) /\ In id l.
 Proof. exact fetcher_notify_requests. Qed.
 
-(* The end-to-end statement these four compose to, NOT proved as one theorem: under timer fairness
+(* (5) Whether or not it had to request it, every pass the loop takes leaves every held, interesting,
+   young item with a request at most ArriveTimeout - GatherSlack old (made in this pass or earlier):
+   with (1)-(2), at any moment the last request of such an item is at most
+   2*ArriveTimeout - GatherSlack + latency old, or its first pass is still to come. *)
+Theorem C16_liveness_pass_leaves_recent_partial : forall c st now interested ch scan id e oldest more,
+  (c_slack c <= c_arrive c)%Z -> timer_chan st = true -> In id interested ->
+  lru_find id (ann st) = Some e -> e_val e = oldest :: more -> (now - a_time oldest <= c_forget c)%Z ->
+  let st' := fst (step true c st now (ETimer interested ch scan)) in
+  lru_find id (ann st') = Some e /\
+  exists p ft, f_find id (fetching st') = Some (p, ft) /\ (now - ft <= c_arrive c - c_slack c)%Z.
+Proof. exact fetcher_pass_leaves_recent. Qed.
+
+(* (6) ... where a fetching entry (id -> peer, time) is, on every trace, the record of a request
+   (peer, ..id..) really emitted at that time. *)
+Theorem C16_liveness_fetching_was_requested_partial : forall c t0 tr id p ft,
+  f_find id (fetching (fst (run true c (init t0) tr))) = Some (p, ft) ->
+  exists ids, In (ft, (p, ids)) (snd (run true c (init t0) tr)) /\ In id ids.
+Proof. exact fetcher_fetching_was_requested. Qed.
+
+(* The end-to-end statement these compose to, NOT proved as one theorem: under timer fairness
    with latency [lat], an item announced at t (reported interesting from then on, not received,
    announcement younger than ForgetTimeout, cache not overflowing) is requested during
    [t, t + 2*ArriveTimeout + 2*lat]. *)
@@ -86,3 +105,5 @@ Print Assumptions C16_liveness_pass_pending_partial.
 Print Assumptions C16_liveness_tick_partial.
 Print Assumptions C16_liveness_pass_requests_partial.
 Print Assumptions C16_liveness_notify_requests_partial.
+Print Assumptions C16_liveness_pass_leaves_recent_partial.
+Print Assumptions C16_liveness_fetching_was_requested_partial.
